@@ -25,8 +25,8 @@ ASSUMPTIONS = [
     'a requested grid that contains no native point of some molecule is outside "requested grids/observations" '
     'only if it contains no native point of the model grid either; otherwise it is judged',
 ]
-_Q = {'restrict': 40, 'emission': 16, 'binning': 22, 'opacity': 60, 'sequence': 12}
-_T = {'restrict': 600, 'emission': 250, 'binning': 350, 'opacity': 1500, 'sequence': 200}
+_Q = {'restrict': 40, 'emission': 16, 'binning': 22, 'opacity': 60, 'sequence': 24}
+_T = {'restrict': 600, 'emission': 250, 'binning': 350, 'opacity': 1500, 'sequence': 400}
 BUDGET = {
     'quick': [dict(name='boundscheck', env={'NUMBA_BOUNDSCHECK': '1'}, shards=4, cases=_Q)],
     'thorough': [dict(name='boundscheck', env={'NUMBA_BOUNDSCHECK': '1'}, shards=16, cases=_T)],
@@ -36,7 +36,8 @@ REQUIRED = dict(monitors=['restricted-equals-full', 'restricted-grid-is-subset',
                           'opacity-foreign-points-between-neighbours', 'emission-restricted-equals-full',
                           'sequence-no-stale-state', 'per-source-restricted-equals-full'],
                 classes=['grid:inside', 'grid:edge', 'grid:partly-outside', 'grid:observation', 'model:emission',
-                         'different-native-grids', 'layout:xsec', 'layout:ktable', 'contrib:HydrogenIon'])
+                         'different-native-grids', 'layout:xsec', 'layout:ktable', 'contrib:HydrogenIon',
+                         'sliding-window-same-size'])
 CUT = math.exp(-10.0)
 
 
@@ -385,8 +386,28 @@ def wl_sequence(ctx, rng):
     """No per-grid state survives: after a full-grid run, any order of restricted / per-contribution /
     per-component runs on the sub-grid and on the full grid, then the full grid again."""
     spec = make_case(rng, hion=bool(rng.random() < 0.7))
+    sliding = rng.random() < 0.5
+    if sliding:
+        # a uniformly spaced model grid, so that a window shifted by whole steps has the SAME number of points
+        # but different wavenumbers (state keyed on the grid size alone would go stale)
+        t = spec['tables'][list(spec['tables'])[0]]
+        n_ = max(len(t['wn']), 24)
+        t['wn'] = np.linspace(t['wn'][0], t['wn'][-1], n_)
+        if t['xsec'].shape[2] != n_:
+            reps = int(np.ceil(n_ / t['xsec'].shape[2]))
+            t['xsec'] = np.tile(t['xsec'], (1, 1, reps))[:, :, :n_] * np.linspace(1.0, 2.0, n_)
     native = native_of(spec)
     g, gcls = draw_grid(rng, native)
+    g2 = None
+    if sliding:
+        step = native[1] - native[0]
+        w = int(rng.integers(3, max(4, len(native) // 3)))
+        i0 = int(rng.integers(2, len(native) - w - 4))
+        shift = int(rng.integers(1, len(native) - w - i0 - 1)) if len(native) - w - i0 - 1 > 1 else 1
+        g = native[i0:i0 + w].copy()
+        g2 = g + shift * step
+        gcls = 'inside'
+        ctx.observe('sliding-window-same-size')
     observe_case(ctx, spec, 'transmission', gcls)
     model = build_tm(ctx, spec)
     if model is None:
@@ -394,11 +415,24 @@ def wl_sequence(ctx, rng):
     first = run_tm(ctx, model)
     ops = ['model-sub', 'contrib-sub', 'full-contrib-sub', 'full-contrib-full', 'contrib-full']
     order = [ops[i] for i in rng.permutation(len(ops))][:int(rng.integers(2, 6))]
+    if g2 is not None:
+        order = order + ['model-sub2']
+        k_ = int(rng.integers(0, len(order)))
+        order.insert(k_, 'model-sub')         # make sure a window of the same size was computed before the shifted one
     comp = {}
     for op in order:
         if op == 'model-sub':
             sub = run_tm(ctx, model, wngrid=g)
             compare_tm(ctx, 'restricted-equals-full', first, sub, 'sequence')
+        elif op == 'model-sub2':
+            sub2 = run_tm(ctx, model, wngrid=g2)
+            compare_tm(ctx, 'restricted-equals-full', first, sub2, 'sequence: shifted window of the same size')
+            wn_c2, cd2 = model.model_contrib(wngrid=g2)
+            wn_cf, cdf = model.model_contrib()
+            idx2 = np.searchsorted(wn_cf, wn_c2)
+            for k2 in cd2:
+                ctx.close('per-source-restricted-equals-full', np.array(cd2[k2][0], dtype=float),
+                          np.array(cdf[k2][0], dtype=float)[idx2], 1e-10, source=k2, order=order, shifted=True)
         elif op.startswith('contrib'):
             wn_c, cd = model.model_contrib(wngrid=g if op.endswith('sub') else None)
             ctx.check('sequence-shapes', all(np.array(v[0]).shape == wn_c.shape for v in cd.values()))
